@@ -545,6 +545,11 @@ def check(ctx, rep):
 
     # ------------------------------------------------------------------ R20e
     body_writer_obligations(ctx, rep, "R20e")
+    # ------------------------------------------------------------------ R20j
+    rep.rule("R20j", "= R03m: the log line for a failed connection is formatted with request text as an argument only, never inside the format "
+             "string (a `%` in the selector would make the report itself fail)", floor=1)
+    from .c03 import format_string_obligations
+    format_string_obligations(ctx, rep, "R20j")
     # ------------------------------------------------------------------ R20i
     rep.rule("R20i", "inside its except clauses the connection handler only reports (log routine, traceback, attribute reads): nothing there calls "
              "back into the protocol or the handlers, where a second exception could be raised", floor=1)
